@@ -29,6 +29,12 @@ OWN_DEFECT = [
     doc(SYS % '').replace('AUTOSAR_00050.xsd', 'AUTOSAR_4-3-1.xsd'),   # wrong version label
     doc(SYS % 'stray text'),                                    # character content where forbidden
     doc(SYS % '<DESC><L-2>a</L-2></DESC>'),                     # missing required attribute
+    doc(SYS % '<CATEGORY>c</CATEGORY><SHORT-NAME>Again</SHORT-NAME>'),   # repeated single-occurrence element, not adjacent to the first occurrence
+    doc(SYS % '<LONG-NAME><L-4 L="EN">a</L-4></LONG-NAME><DESC><L-2 L="EN">d</L-2></DESC><LONG-NAME><L-4 L="EN">b</L-4></LONG-NAME>'),  # idem, other context
+    doc('<SYSTEM><SHORT-NAME>\x0bSys</SHORT-NAME></SYSTEM>'),    # pattern violation by a control character at the edge of the value (not XML whitespace)
+    doc('<SYSTEM><SHORT-NAME>Sys\x1f</SHORT-NAME></SYSTEM>'),
+    doc(SYS % '<DESC><L-2 L="\x01EN">a</L-2></DESC>'),           # unknown enum value, idem
+    doc(SYS % '<DESC><L-2 L="EN\x0b">a</L-2></DESC>'),
 ]
 
 
@@ -45,3 +51,20 @@ def fixtures(repo_dir):
     return out
 
 
+
+
+# documents with repeated / reorderable siblings at several nesting levels (for the API-level sort check, C14)
+SDG = '<SDG GID="%s"><SD GID="v">%s</SD></SDG>'
+ARG = '<ARGUMENT-DATA-PROTOTYPE><SHORT-NAME>%s</SHORT-NAME><ADMIN-DATA><SDGS>%s</SDGS></ADMIN-DATA><DIRECTION>IN</DIRECTION></ARGUMENT-DATA-PROTOTYPE>'
+SORT_DOCS = [
+    doc(SYS % '' + '<SYSTEM><SHORT-NAME>Abc</SHORT-NAME></SYSTEM><SYSTEM><SHORT-NAME>Sys10</SHORT-NAME></SYSTEM><SYSTEM><SHORT-NAME>Sys2</SHORT-NAME></SYSTEM>'),
+    doc('<CLIENT-SERVER-INTERFACE><SHORT-NAME>If</SHORT-NAME><OPERATIONS><CLIENT-SERVER-OPERATION><SHORT-NAME>Op</SHORT-NAME><ARGUMENTS>'
+        + ARG % ('zz', SDG % ('B', '2') + SDG % ('A', '1')) + ARG % ('aa', SDG % ('D', '2') + SDG % ('C', '1') + SDG % ('E', '0'))
+        + '</ARGUMENTS></CLIENT-SERVER-OPERATION><CLIENT-SERVER-OPERATION><SHORT-NAME>Aop</SHORT-NAME></CLIENT-SERVER-OPERATION></OPERATIONS></CLIENT-SERVER-INTERFACE>'),
+    doc('<ECUC-MODULE-CONFIGURATION-VALUES><SHORT-NAME>Cfg</SHORT-NAME><CONTAINERS><ECUC-CONTAINER-VALUE><SHORT-NAME>C2</SHORT-NAME><PARAMETER-VALUES>'
+        '<ECUC-NUMERICAL-PARAM-VALUE><DEFINITION-REF DEST="ECUC-INTEGER-PARAM-DEF">/D/p</DEFINITION-REF><VALUE>9</VALUE></ECUC-NUMERICAL-PARAM-VALUE>'
+        '<ECUC-NUMERICAL-PARAM-VALUE><DEFINITION-REF DEST="ECUC-INTEGER-PARAM-DEF">/D/p</DEFINITION-REF><VALUE>10</VALUE></ECUC-NUMERICAL-PARAM-VALUE>'
+        '<ECUC-TEXTUAL-PARAM-VALUE><DEFINITION-REF DEST="ECUC-STRING-PARAM-DEF">/D/q</DEFINITION-REF><VALUE>2.5</VALUE></ECUC-TEXTUAL-PARAM-VALUE>'
+        '<ECUC-NUMERICAL-PARAM-VALUE><DEFINITION-REF DEST="ECUC-INTEGER-PARAM-DEF">/D/a</DEFINITION-REF><VALUE>1</VALUE></ECUC-NUMERICAL-PARAM-VALUE>'
+        '</PARAMETER-VALUES></ECUC-CONTAINER-VALUE><ECUC-CONTAINER-VALUE><SHORT-NAME>C1</SHORT-NAME></ECUC-CONTAINER-VALUE></CONTAINERS></ECUC-MODULE-CONFIGURATION-VALUES>'),
+]
